@@ -121,9 +121,21 @@ def run(ctx):
     run.rule(R3, "replies to encrypted calls are encrypted (was_encrypted path split)", floor=2)
     if fn:
         # locate the was_encrypted local
-        we = [l for l, n in fn.var_names().items() if n == "was_encrypted"]
+        # the "request was encrypted" flag, found by role (not by name): the user bool local with only
+        # constant assignments whose true-edge guards every encrypt_response call
+        enc_calls = {b for b, _t in cfg.find_calls(fn, H + "encrypt_response")}
+        we = []
+        for l in range(fn.argc + 1, len(fn.locals)):
+            if fn.locals[l]["ty"] != "bool" or not fn.locals[l].get("u"):
+                continue
+            ds = [d for d in fn.defs().get(l, [])]
+            if not ds or any(d[0] != "a" or d[3]["r"]["k"] != "use" or vf.const_of_operand(fn, d[3]["r"]["o"]) not in ("0", "1") for d in ds):
+                continue
+            gl = cfg.local_guard(fn, l)
+            if enc_calls and gl.ok and cfg.must_pass(fn, gl.ok, enc_calls)[0]:
+                we.append(l)
         if len(we) != 1:
-            run.error("C13.R3: local was_encrypted not found in call_api")
+            run.error("C13.R3: the encrypted-request flag (bool local guarding encrypt_response) not found in call_api (%d candidates)" % len(we))
         else:
             W = we[0]
             sets = [(d[1], vf.const_of_operand(fn, d[3]["r"]["o"]) if d[3]["r"]["k"] == "use" else None) for d in fn.defs().get(W, []) if d[0] == "a"]
